@@ -130,6 +130,17 @@ func jobsFor(prop, tier string) []*Job {
 			Bounds: "error kinds: net.Error (timeout flag symbolic), io.EOF, wrapped EOF, context.Canceled, doubly wrapped Canceled, other; through forward.New(passHost symbolic).ErrorHandler"})
 		add(&Job{Name: "O2-listener-pairing", Pkg: "forward", Harness: "VerifC16Listener",
 			Bounds: "StateListener.ServeHTTP with a next handler that returns, panics with http.ErrAbortHandler, or panics otherwise (symbolic)"})
+	case "C02":
+		k := 3
+		if thorough {
+			k = 4
+		}
+		for kind := 0; kind < 2; kind++ {
+			for op0 := 0; op0 < 3; op0++ {
+				add(&Job{Name: fmt.Sprintf("O2-history/kind=%d,k=%d,op0=%d", kind, k, op0), Pkg: "roundrobin", Harness: "VerifC02History", Params: p("kind", kind, "k", k, "op0", op0),
+					Bounds: fmt.Sprintf("%d administration calls (upsert with weight 0..2 / upsert without option / remove) on a universe of 4 URLs with 3 identities, checked after every call; then one rotation via NextServer or ServeHTTP with a URL-rewriting downstream handler; kind 0 = RoundRobin, 1 = through Rebalancer", k)})
+			}
+		}
 	}
 	return js
 }
